@@ -108,6 +108,21 @@ CHECKS = {
              'including commits, undos and reopen after the pack.',
         note='history level (bytes of the pack in C08/C09 machinery); pack times at second boundaries; blobs in C13',
         design='6/C07'),
+    'C13': dict(
+        technique='TLA+ spec ZBlob (blob directory, dirty list, tmp/savepoint files, Connection/TmpStore bookkeeping, undo and both '
+                  'blob packers on top of ZPackOps; deviation constants AbortNeedsVote/NonUndoPack/SpbPerSerial) model-checked by TLC; '
+                  'TLC counterexamples, TLC-evaluated call scripts (ZBlobScript) and -simulate walks replayed through real '
+                  'DB/Connection/Blob objects',
+        text='TLC checks FilesMatchRecords, UncommittedInvisible, SnapshotsReadable, NothingLeftBehind, CommittedFilesImmutable, '
+             'PackRemovesExactly on the design for both flavours and exhibits F4/F15/F3 with a constant set; each counterexample is '
+             'replayed to choose the model of the tree. Conformance: every Blob call x every end of the commit (finish, abort after '
+             'begin/stores/vote, ConflictError after the blob was stored) x savepoint/rollback x second object x racing writer, '
+             'undo/redo chains incl. of a creation and failing undo, packs at every time with/without pack_keep_old; after every call '
+             'the *.blob files (oid, tid, md5, mode), <blobs>.old, dirty_oids, tmp/, reads through fresh and per-tid historical '
+             'connections, c1 views and the iterator must equal the TLC state; the C13 verdict per state is the derived variable viol.',
+        note='exhaustive only on 1 blob/1 atom/2-3 transactions; replays 3-4 blobs, <=10 transactions; F4 fixed (f22d60a), F15 and F3 '
+             'known findings; BlobStorage over an undo-capable storage not covered; tmp/ leaks counted not judged',
+        design='6/C13'),
     'C14': dict(
         technique='TLA+ spec ZGraph (persistence by reachability, persistent_id reference formats, referencesf/get_refs case '
                   'analysis, pack-gc and export as consumers) model-checked by TLC; all small graphs and simulated mutation '
